@@ -29,6 +29,9 @@ TOPOLOGIES = {
     "2m": (["Weight"], [({"Weight": 0}, "full"), ({"Weight": 1000}, "full")]),
     "3m": (["Weight"], [({"Weight": 0}, "full"), ({"Weight": 500}, "full"), ({"Weight": 1000}, "full")]),
     "2m+sparse": (["Weight"], [({"Weight": 0}, "full"), ({"Weight": 500}, "sparse"), ({"Weight": 1000}, "full")]),
+    # the sparse layer lives in the LAST master's UFO and its source is listed before that master
+    "2m+sparse-of-last": (["Weight"], [({"Weight": 0}, "full"), ({"Weight": 500}, "sparse-next"),
+                                       ({"Weight": 1000}, "full")]),
     "4c": (["Weight", "Width"], [({"Weight": 0, "Width": 0}, "full"), ({"Weight": 1000, "Width": 0}, "full"),
                                 ({"Weight": 0, "Width": 1000}, "full"), ({"Weight": 1000, "Width": 1000}, "full")]),
 }
@@ -40,7 +43,7 @@ W2_LIB = {"com.github.googlei18n.ufo2ft.featureWriters": [
     {"class": "MarkFeatureWriter"}, {"class": "GdefFeatureWriter"}, {"class": "CursFeatureWriter"}]}
 
 
-def master_spec(i, kcc, kgg, anchor, khalf=None):
+def master_spec(i, kcc, kgg, anchor, khalf=None, no_base_pair=False):
     d = 20 * i
     glyphs = {
         ".notdef": {"width": 500, "contours": [B.box(50, 0, 450, 700)]},
@@ -64,7 +67,7 @@ def master_spec(i, kcc, kgg, anchor, khalf=None):
                            [(200, 0, "line"), (200, 30 * i, None), (300, 30 * i, None), (300, 0, "curve"),
                             (300, -50, "line"), (200, -50, "line")]]},
     }
-    kerning = [("b", "a", -10 - i)]
+    kerning = [] if no_base_pair else [("b", "a", -10 - i)]
     if kcc is not None:
         kerning.append((G1, G2, kcc))
     if kgg is not None:
@@ -86,17 +89,30 @@ def build_ds(c):
         axes.append(ax)
     sources, specs = [], []
     fi = 0
+    pending_sparse = None
     for mi, (loc, kind) in enumerate(masters):
         if kind == "full":
             kcc, kgg = c["kern"][fi]
             kh = c.get("half", [0] * 8)[fi]
             spec = master_spec(mi, KV[kcc], KV[kgg], ANCHOR_PAL[c["anchors"][fi] % len(ANCHOR_PAL)],
-                               khalf=[None, -35][kh])
+                               khalf=[None, -35][kh], no_base_pair=bool(c.get("empty_default")) and fi == 0)
             fi += 1
             if c.get("w2"):
                 spec["lib"] = dict(W2_LIB)  # the alternative kern writer, selected through the UFO lib
             specs.append(spec)
             sources.append({"spec": spec, "location": loc, "name": f"m{mi}", "share": f"m{mi}"})
+            if pending_sparse is not None:
+                smi, sloc = pending_sparse
+                g = spec["glyphs"]["a"]
+                spec.setdefault("layers", {})["mid"] = {"glyphs": {"a": {
+                    "width": g["width"] - 15,
+                    "contours": [[(p[0] - 3, p[1], p[2]) for p in g["contours"][0]]]}}}
+                sources[smi] = {"spec": spec, "share": f"m{mi}", "layerName": "mid", "location": sloc, "name": "mid"}
+                pending_sparse = None
+        elif kind == "sparse-next":
+            pending_sparse = (mi, loc)  # attached to the next full master's font below
+            specs.append(None)
+            sources.append(None)
         else:
             sp0 = specs[0]
             g = sp0["glyphs"]["a"]
@@ -276,14 +292,16 @@ class C10(Property):
         "outlines are compared with the interpolatable master within 1 unit (statement); kerning and "
         "anchors exactly (integer master data; fractional anchors rounded half up)",
         "kerning groups are identical in all masters (the writer requires it)",
+        "a default master without any kerning next to kerned masters is explored with variable features only: "
+        "merging per-master GPOS tables requires the same feature list in every master (varLib precondition)",
     ]
     trusted_base = ["fontTools.varLib.instancer", "fontTools binary reader", "mc/otl_ref.py", "mc/kern_ref.py"]
 
     def bounds(self, tier):
         if tier == "quick":
-            return {"depth": 0, "topos": ["2m", "3m", "2m+sparse", "4c"], "full3": False,
+            return {"depth": 0, "topos": ["2m", "3m", "2m+sparse", "2m+sparse-of-last", "4c"], "full3": False,
                     "flavours": ["ttf", "cff2"], "vf": [True, False]}
-        return {"depth": 0, "topos": ["2m", "3m", "2m+sparse", "4c"], "full3": True,
+        return {"depth": 0, "topos": ["2m", "3m", "2m+sparse", "2m+sparse-of-last", "4c"], "full3": True,
                 "flavours": ["ttf", "cff2"], "vf": [True, False]}
 
     def initial(self, b):
@@ -300,8 +318,16 @@ class C10(Property):
                 # 4 corners: two free masters, the other two copy them (and one variant with an empty corner)
                 kerns = [(k0, k1, k0, k1) for k0 in pat for k1 in pat] + [(k0, k1, (0, 0), k1) for k0 in pat for k1 in pat]
             for kern in kerns:
+                if topo == "2m+sparse-of-last" and b["tier"] == "quick" and kerns.index(kern) % 4:
+                    continue  # quick: every fourth kerning pattern on this source order
                 for fl in b["flavours"]:
                     for vf in b["vf"]:
+                        if vf and kern[0] == (0, 0) and any(k != (0, 0) for k in kern[1:]) and topo in ("2m", "3m"):
+                            # (variable features only: merging per-master tables needs the same feature
+                            #  list in every master, which varLib states as a precondition)
+                            # the default master has no kerning AT ALL, other masters are kerned
+                            out.append([{"topo": topo, "kern": [list(k) for k in kern], "anchors": [0] * nfull,
+                                         "flavour": fl, "vf": vf, "axis_map": False, "empty_default": True}])
                         for amap in (False, True):
                             if amap and b["tier"] == "quick" and kerns.index(kern) % 3:
                                 continue  # quick: the axis map on every third kerning pattern
